@@ -262,7 +262,7 @@ PROPS = {
         "lean_modules": ["Pumpkin.Model.Dimacs"],
         "relevant": lambda kind, rec, case: True,
         "level_text": "Model/Dimacs.lean also mirrors parse_wcnf (header `p wcnf v c top`, the weight in front of each clause, weight = top means hard, the callback's panics on an empty or non-positively weighted clause): the real parser (compiled into the harness with a recording sink) must return exactly the model's hard / weighted soft clauses or error kind on generated WCNF files, perturbations and junk. Proof: Check/MaxSat.lean — maxsatOpt_spec (the oracle value is attained by a hard-satisfying assignment and no hard-satisfying assignment is cheaper), maxsatOpt_none_iff, checkMaxSat_sound (an accepted answer: the printed model satisfies the hard clauses, costs exactly the reported value, which is optimal), encodings_agree. Tie to code (black box): generated WCNFs (1-7 variables, unit / empty / duplicate soft clauses, soft clauses decided at the root in both polarities, weights 1-9 and a few large, hard part sometimes unsatisfiable) are solved by the CLI with both upper-bound encodings and random seeds; the last o-line, the v-line and the status are judged; the o-lines must strictly decrease; both encodings must report the same optimum.",
-        "level_note": LEVEL_NOTE_COMMON + "The encoders (generalised totaliser, cardinality network) are exercised end-to-end, not modelled.",
+        "level_note": LEVEL_NOTE_COMMON + "linear_search_optimal proves the linear search of maxsat/optimisation/linear_search.rs optimal given the contract of the upper-bound encoders (after constrain_at_most_k k the solver answers for hard clauses and cost <= k; the constant term is a lower bound); the encoders themselves (generalised totaliser, cardinality network) are exercised end-to-end, not modelled.",
     },
     "C13": {
         "needs_cli": True,
